@@ -531,7 +531,7 @@ pub fn run(rec: &mut Rec) {
     // deviation targets: the first K dynamic instances of every distinct library loop (join site)
     let per_site = if rec.thorough() { 4 } else { 1 };
     let pools: Vec<usize> = if rec.thorough() { vec![2, 3, 4, 5] } else { vec![2, 3] };
-    rec.scope(format!("schedule exploration under the simulated rayon scheduler: {} items x simulated pool sizes {:?}; default tape, then every tape deviating at one join ({} joins; the first {} dynamic instances of every distinct loop in every phase (operation) of the flow) by each of the 7 non-default (order, migrated-a, migrated-b) choices{}", ITEMS.len(), pools, if rec.thorough() { "all" } else { "library-owned" }, per_site, if rec.thorough() { "; pairs of owned joins (k = 2)" } else { "" }));
+    rec.scope(format!("schedule exploration under the simulated rayon scheduler: {} items x simulated pool sizes {:?}; default tape, then every tape deviating at one join ({} joins; the first {} dynamic instances of every distinct library loop - thorough: plus the first instance of every loop of the dependencies - in every phase (operation) of the flow) by each of the 7 non-default (order, migrated-a, migrated-b) choices{}", ITEMS.len(), pools, if rec.thorough() { "all" } else { "library-owned" }, per_site, if rec.thorough() { "; pairs of owned joins (k = 2)" } else { "" }));
     for item in ITEMS.iter() {
         let mut want: Option<BTreeMap<String, String>> = None;
         for threads in pools.iter().copied() {
@@ -580,7 +580,9 @@ pub fn run(rec: &mut Rec) {
                 }
                 let c = seen_sites.entry(sites0[i]).or_insert(0);
                 *c += 1;
-                if *c <= per_site {
+                // joins of the dependencies (thorough tier only): the first instance per site and phase
+                let limit = if owned0[i] { per_site } else { 1 };
+                if *c <= limit {
                     targets.push(i);
                 }
             }
